@@ -182,4 +182,24 @@ example : demo.s.ready = true ∧ demo.s.unresolved = some [103, 104] := by deci
 example : ((demo.s.obj demo.s.lastAccepted).out.map (·.st)) = some [100, 101, 102] := by decide
 example : health ((demo.run [.reject 4, .reject 5]).s) = .health true (some 0) := by decide
 
+
+/-! ### Known finding: finish between the rejects of one transitive rejection
+
+`Reject` does not take `chainLock`, so `FinishStateSync` (called from the state-sync client's
+goroutine) may run after the engine rejected a block `A` and before it rejects `A`'s child `B`.
+`verifyProcessingBlocks` then cannot fetch `B`'s parent and returns a fatal error: the VM never
+becomes ready.  The call sequence below satisfies `EngineOK` call by call. -/
+def cexOps : List Op :=
+  [.start ⟨100, 99, 0, false⟩, .parse ⟨101, 100, 1, false⟩, .verify 2, .parse ⟨102, 101, 2, false⟩, .verify 3,
+   .parse ⟨103, 100, 1, false⟩, .verify 4, .accept 4, .reject 2]
+def cex : Sys := (Sys.init 2 2 0 ⟨100, 99, 0, false⟩ true).run cexOps
+
+/-- **c21_counterexample** — an `EngineOK` history on which `FinishStateSync` at the tip fails fatally
+and the VM stays not ready (negation of "whenever sync finishes the node ends ready with the executed
+state" for this interleaving). -/
+theorem c21_counterexample :
+    engineOK (Sys.init 2 2 0 ⟨100, 99, 0, false⟩ true) (cexOps ++ [.finish ⟨103, 100, 1, false⟩ [103]]) = true ∧
+    (step cex.s (.finish ⟨103, 100, 1, false⟩ [103])).2 = .err "parentfetch" ∧
+    (step cex.s (.finish ⟨103, 100, 1, false⟩ [103])).1.ready = false := by decide
+
 end HyperModel.Props.C21
